@@ -1,0 +1,20 @@
+//go:build verif
+// +build verif
+
+package messages
+
+import "sync/atomic"
+
+var verifPointFn atomic.Value // of func(name string, offset uint64)
+
+// VerifSetPoint registers fn to be called at every named verification point
+// of Consume. Compiled only with the "verif" build tag.
+func VerifSetPoint(fn func(name string, offset uint64)) {
+	verifPointFn.Store(fn)
+}
+
+func verifPoint(name string, offset uint64) {
+	if fn, ok := verifPointFn.Load().(func(string, uint64)); ok && fn != nil {
+		fn(name, offset)
+	}
+}
